@@ -103,9 +103,12 @@ class Instance:
             self.x0 = np.minimum(np.maximum(self.x0, lo), hi)
         self.scaling = bool(self.bounds is not None and rng.random() < 0.5)
         self.npt = n + 1 if rng.random() < 0.5 else 2 * n + 1
+        # documented option: hard restarts (a restarted run starts from the best point and re-uses its residuals; on a linear problem
+        # it ties with the previous run, which must count as UNsuccessful so that the run still ends with success)
+        self.hard_restarts = bool(rng.random() < 0.15)
 
     def describe(self):
-        return {"n": self.n, "m": self.m, "cond_A": self.cond, "bounds": self.bkind, "scaling": self.scaling, "npt": self.npt,
+        return {"n": self.n, "m": self.m, "cond_A": self.cond, "bounds": self.bkind, "scaling": self.scaling, "npt": self.npt, "hard_restarts": self.hard_restarts,
                 "x0_on_bound": bool(self.bounds is not None and np.any((self.x0 == self.bounds[0]) | (self.x0 == self.bounds[1])))}
 
     def objfun(self, x):
@@ -113,6 +116,8 @@ class Instance:
 
     def solve(self, dfols):
         kw = dict(npt=self.npt, do_logging=False, scaling_within_bounds=self.scaling)
+        if self.hard_restarts:
+            kw["user_params"] = {"restarts.use_restarts": True, "restarts.use_soft_restarts": False}
         if self.bounds is not None:
             kw["bounds"] = (self.bounds[0].copy(), self.bounds[1].copy())
             if not self.scaling:
